@@ -1,5 +1,170 @@
-import ZodbModel.Conn
+/-
+  C12 — Savepoint rollback restores the savepoint state exactly, any number of times.
+
+  Property theorems only (helper lemmas live in `Proofs/Conn*.lean`).  The model is
+  `ZodbModel/Conn.lean`: the bookkeeping of `ZODB.Connection.Connection` with its savepoint storage
+  (`TmpStore`: `position`, `index`, `creating`, the records written so far; `savepoint`,
+  `_rollback_savepoint`, `_commit_savepoint`, `_abort_savepoint`, the `AbortSavepoint`s that
+  `transaction.join` hands to a resource that joins after a savepoint was made, and the invalidation of
+  later savepoints by `Savepoint.rollback`).  `TmpStore.reset` is the repaired one (it installs copies of
+  the saved `index` and `creating`), the finding `C12:rb:unadded-object-keeps-oid` is fixed.
+
+  Every theorem quantifies over ALL programs in the C12 vocabulary (`c12`): read, modify, link, unlink
+  (implicit add by reachability), explicit add, savepoint, rollback to any savepoint number, abort,
+  commit — of any length, over any number of objects (`bound`) — through `Reachable`, and the rollback
+  theorems additionally over ALL program segments that stay inside the transaction (`runTxn`: any mix of
+  the above without commit/abort, further savepoints and rollbacks included).
+
+  What a program can observe of an object is `reads s i`: the result of `read i` in state `s` (payload
+  and references, or the error).
+
+  Limits: one connection, no injected failure, no close (C11 covers those without savepoints); a
+  savepoint made before the connection joined the transaction is an `AbortSavepoint` — rolling back to
+  it is `Connection.abort`, covered by the invariant (`Good12`) and the harness, while `rollback_exact`
+  is stated for savepoints of the joined connection.  An object that lost its state (open finding
+  C11:stored-new-object-ghostified-on-abort, also reachable through a rollback) reads as an error; the
+  theorems speak about the objects that belong to the connection.
+-/
+import Proofs.ConnRel12
 namespace Props.C12
-open ZodbModel ZodbModel.Conn
-theorem placeholder : init.lastTid = 1 := rfl
+open ZodbModel ZodbModel.Conn Proofs.Conn
+
+/-- the states a C12 program (any list of C12 operations) can reach from a fresh database -/
+def Reachable (bound : Nat) (s : State) : Prop :=
+  ∃ ops : List Op, (∀ op ∈ ops, c12 op = true) ∧ s = run bound init ops
+
+theorem reachable_good {bound : Nat} {s : State} (h : Reachable bound s) : Good12 s := by
+  obtain ⟨ops, hops, rfl⟩ := h
+  exact run_good12 bound ops hops init good12_init
+
+/-- `read i` returns `reads s i` -/
+theorem read_is_reads (bound : Nat) (s : State) (i : ObjId) : (step bound s (.read i)).2 = reads s i :=
+  step_read bound s i
+
+/-- **savepoint_keeps_reads.**  A successful `transaction.savepoint()` changes nothing a program can
+    read (it moves the changes into the temporary store and marks the objects clean). -/
+theorem savepoint_keeps_reads (bound : Nat) (s : State) (hr : Reachable bound s)
+    (hj : s.needsToJoin = false) (hok : (step bound s .savepoint).2 = .ok) :
+    ∀ i, (s.objs i).jar = true → reads (stepH bound s .savepoint) i = reads s i := by
+  have hg := reachable_good hr
+  obtain ⟨_, _, _, _, _, h⟩ := savepoint_start hg hj bound hok
+  intro i hjar
+  rw [hg.1.str.jarOid] at hjar
+  cases ho : (s.objs i).oid with
+  | none => rw [ho] at hjar; cases hjar
+  | some k => exact (h i k ho).1
+
+/-- **rollback_exact.**  Let a savepoint be made in any reachable state `s1` (by the joined connection;
+    it gets the number `n = s1.sps.length`), let `a` be the state right after it, and let ANY program
+    segment `ops` run that stays inside the transaction (modifications, new objects, further
+    savepoints, rollbacks to this or other savepoints).  If `rollback n` then succeeds (the savepoint
+    was not invalidated by a rollback to an older one), every object that belonged to the connection at
+    the savepoint reads exactly as it did in `a`. -/
+theorem rollback_exact (bound : Nat) (s1 : State) (hr : Reachable bound s1)
+    (hj : s1.needsToJoin = false) (hok : (step bound s1 .savepoint).2 = .ok) (ops : List Op) (s : State)
+    (hrun : runTxn bound (stepH bound s1 .savepoint) ops = some s)
+    (hrb : (step bound s (.rollback s1.sps.length)).2 = .ok) :
+    ∀ i, ((stepH bound s1 .savepoint).objs i).jar = true →
+      reads (stepH bound s (.rollback s1.sps.length)) i = reads (stepH bound s1 .savepoint) i :=
+  rollback_exact_prog (reachable_good hr) hj bound hok ops hrun hrb
+
+/-- **rollback_repeatable.**  Rolling back to the same savepoint a second time — after any further
+    program segment inside the transaction — restores the same state again. -/
+theorem rollback_repeatable (bound : Nat) (s1 : State) (hr : Reachable bound s1)
+    (hj : s1.needsToJoin = false) (hok : (step bound s1 .savepoint).2 = .ok)
+    (ops2 ops3 : List Op) (s2 s3 : State)
+    (hrun2 : runTxn bound (stepH bound s1 .savepoint) ops2 = some s2)
+    (hrb2 : (step bound s2 (.rollback s1.sps.length)).2 = .ok)
+    (hrun3 : runTxn bound (stepH bound s2 (.rollback s1.sps.length)) ops3 = some s3)
+    (hrb3 : (step bound s3 (.rollback s1.sps.length)).2 = .ok) :
+    ∀ i, ((stepH bound s1 .savepoint).objs i).jar = true →
+      reads (stepH bound s3 (.rollback s1.sps.length)) i = reads (stepH bound s1 .savepoint) i ∧
+      reads (stepH bound s3 (.rollback s1.sps.length)) i =
+        reads (stepH bound s2 (.rollback s1.sps.length)) i := by
+  have hg := reachable_good hr
+  have h2 := rollback_exact_prog hg hj bound hok ops2 hrun2 hrb2
+  have hrun : runTxn bound (stepH bound s1 .savepoint) (ops2 ++ [.rollback s1.sps.length] ++ ops3)
+      = some s3 := by
+    rw [runTxn_append, runTxn_append, hrun2]
+    simp only [Option.bind_some]
+    rw [runTxn_rollback]
+    simp only [Option.bind_some]
+    rw [stepH_of_notFailed bound s2 (.rollback s1.sps.length) (txnRollback_notFailed s2 _)] at hrun3
+    exact hrun3
+  have h3 := rollback_exact_prog hg hj bound hok _ hrun hrb3
+  intro i hjar
+  exact ⟨h3 i hjar, (h3 i hjar).trans (h2 i hjar).symm⟩
+
+/-- **rollback_then_later_savepoints.**  After a successful rollback to savepoint `n` every savepoint
+    made after it is invalid: rolling back to one of them raises `InvalidSavepointRollbackError` and
+    changes nothing.  (Savepoint `n` itself, and savepoints made afterwards, can be rolled back to
+    exactly: `rollback_exact` holds in every reachable state, `rollback_repeatable` for `n` again.) -/
+theorem rollback_then_later_savepoints (bound : Nat) (s : State) (n : Nat)
+    (hrb : (step bound s (.rollback n)).2 = .ok) (m : Nat) (hlt : n < m) (hm : m < s.sps.length) :
+    step bound (stepH bound s (.rollback n)) (.rollback m) =
+      (stepH bound s (.rollback n), .err .invalidSavepoint) := by
+  rw [stepH_of_notFailed bound s (.rollback n) (txnRollback_notFailed s n)]
+  exact rollback_later_invalid hrb m hlt hm
+
+/-- **commit_after_savepoints_stores_final.**  When a transaction that used savepoints (the
+    connection has savepoint storage) commits successfully: it is one transaction with one tid; for
+    EVERY object of the connection, what the program could read last is what the database holds
+    afterwards — with the new tid if the object is in the transaction, as the unchanged old record
+    otherwise — and what the connection keeps reading; no other record changes; the savepoint storage
+    is gone and no savepoint remains. -/
+theorem commit_after_savepoints_stores_final (bound : Nat) (s : State) (hr : Reachable bound s)
+    (hj : s.needsToJoin = false) (t : TmpStore) (hsp : s.sp = some t) (tid : Nat) (oids : List Nat)
+    (hout : (step bound s (.commit .none)).2 = .committed tid oids) :
+    let s' := (step bound s (.commit .none)).1
+    (tid = s.lastTid + 1 ∧ s'.lastTid = tid ∧ s'.log = (tid, oids) :: s.log) ∧
+    (∀ i k v rf, (s.objs i).oid = some k → reads s i = .value v rf →
+      reads s' i = .value v rf ∧
+      ∃ c, s'.committed.get k = some c ∧ c.val = v ∧ c.refs = rf ∧
+        (k ∈ oids → c.serial = tid) ∧ (k ∉ oids → s.committed.get k = some c)) ∧
+    (∀ k, k ∉ oids → s'.committed.get k = s.committed.get k) ∧
+    s'.sp = none ∧ s'.sps = [] ∧ s'.needsToJoin = true :=
+  commit_sp_core (reachable_good hr).1 hj hsp bound hout
+
+/-- **abort_discards_all.**  `transaction.abort()` in any reachable state — whatever was saved in
+    savepoints, rolled back or not: nothing visible to others changed; no savepoint storage and no
+    savepoint remains; the connection is idle; every object of the committed database stays with the
+    connection; every object of the connection reads as its committed record; and no other object
+    belongs to the connection (everything new was disowned). -/
+theorem abort_discards_all (bound : Nat) (s : State) (hr : Reachable bound s) :
+    let s' := (step bound s .abort).1
+    shared s' = shared s ∧ s'.sp = none ∧ s'.sps = [] ∧ s'.needsToJoin = true ∧ s'.registered = [] ∧
+    (∀ i k, s.cache.get k = some i → s.committed.get k ≠ none → s'.cache.get k = some i) ∧
+    (∀ i k, s'.cache.get k = some i →
+      ∃ c, s.committed.get k = some c ∧ reads s' i = .value c.val c.refs) ∧
+    (∀ i, (s'.objs i).jar = true → ∃ k, s'.cache.get k = some i) :=
+  abort_core (reachable_good hr).1
+
+/-- **savepoint_invisible_to_others.**  Neither a savepoint (successful or failed) nor a rollback
+    changes anything another connection could read: committed records, last tid and transaction log
+    are untouched, in every state. -/
+theorem savepoint_invisible_to_others (bound : Nat) (s : State) (op : Op)
+    (hop : op = .savepoint ∨ ∃ n, op = .rollback n) : shared (stepH bound s op) = shared s :=
+  stepH_shared_sp bound s op hop
+
+/-- every state a C12 program reaches satisfies the invariant the theorems rest on (in particular:
+    every savepoint that is still valid describes a prefix of the temporary store, every oid in a saved
+    index is cached, every created oid is indexed; see `Proofs.Conn.Inv12`) -/
+theorem reachable_invariant (bound : Nat) (s : State) (hr : Reachable bound s) : Inv12 s :=
+  (reachable_good hr).1
+
+/-! ### the statements are not vacuous -/
+
+/-- the reproduced program of the (fixed) finding: two rollbacks to savepoint 0, the second after an
+    object was added by a later savepoint -/
+def corpusProgram : List Op :=
+  [.modify 0 1, .savepoint, .link 0 1, .savepoint, .rollback 0, .link 0 2, .savepoint, .rollback 0]
+
+example : (step 3 (run 3 init corpusProgram) (.read 0)).2 = .value 1 [] := by decide
+example : ((run 3 init corpusProgram).objs 2).jar = false ∧ ((run 3 init corpusProgram).objs 1).jar = false := by
+  decide
+example : (run 3 init corpusProgram).sp.isSome = true ∧
+    (step 3 (run 3 init corpusProgram) (.commit .none)).2 = .committed 2 [0] := by decide
+example : (step 3 (run 3 init [.modify 0 1, .savepoint, .modify 0 2, .savepoint, .rollback 0])
+    (.rollback 1)).2 = .err .invalidSavepoint := by decide
+
 end Props.C12
